@@ -51,7 +51,7 @@ SEQ = {
                            'subtree_moves'],
                 quick=(36, 45), thorough=(900, 60)),
     'C09': dict(models=['MC_forest'], weights=W_FOREST, nprov=8,
-                scenarios=['subtree_moves'],
+                scenarios=['subtree_moves', 'parent_spellings'],
                 quick=(36, 45), thorough=(900, 80)),
     'C10': dict(models=['MC_alloc', 'MC_assoc'], weights={}, read_after_write=True,
                 scenarios=['reshape_moves_class', 'consumer_lifecycle',
@@ -60,7 +60,7 @@ SEQ = {
     'C11': dict(models=['MC_forest', 'MC_alloc'], weights={}, read_after_write=True,
                 scenarios=['reshape_moves_class', 'consumer_lifecycle',
                            'drop_class_in_use', 'names_lifecycle',
-                           'subtree_moves', 'joint_overflow', 'usage_views', 'reshape_tightens_units', 'list_form_duplicates', 'f7_empty_write_unknown_consumer',
+                           'subtree_moves', 'parent_spellings', 'ratio_nudges', 'joint_overflow', 'usage_views', 'reshape_tightens_units', 'list_form_duplicates', 'f7_empty_write_unknown_consumer',
                            'f9_unknown_provider_new_consumer'],
                 replay=dict(quick=(4, 30, 2), thorough=(40, 60, 12)), gabbi=True,
                 quick=(48, 35), thorough=(1500, 50)),
@@ -327,6 +327,33 @@ def run_seq(prop, tier, seed, model=True):
         violations.extend(v2)
         known.extend(k2)
         extra_cov['interleavings_of_racing_creations'] = n2
+        # "after start-up ...": also after the start-up that follows a failed one in the same process
+        import multiprocessing as mp
+        from pv import faults
+        ctx = mp.get_context('spawn')
+        try:
+            with ctx.Pool(1) as pool:
+                nitems, _single = pool.apply(faults.corpus_for_model)
+                fres = [pool.apply(faults.worker, ({'mode': 'fault', 'indices': list(range(nitems)), 'only_ops': ['sync'],
+                                                    'kinds': ['generic', 'conn', 'deadlock', 'deadlock_rb'],
+                                                    'pairs': 0 if tier == 'quick' else 40},))]
+        except tlc.TLCError as ex:
+            raise Machinery(str(ex))
+        for r in fres:
+            for bad in r['bad']:
+                mons = [m for m in bad['monitors'] if m.startswith('C19_')]
+                if not mons:
+                    continue
+                sig = {'engine': 'fault', 'op': bad['req']['op'], 'kind': bad['fault']['kind'],
+                       'monitors': ','.join(mons), 'status': bad['status']}
+                why = '%s: %s with %s at statement %d (%s) answered %s' % (
+                    ','.join(mons), bad['label'], bad['fault']['kind'], bad['fault']['k'], bad['fault']['at'], bad['status'])
+                f = findings.lookup(prop, sig)
+                if f:
+                    known.append((f, why))
+                else:
+                    violations.append((bad, why, sig))
+        extra_cov['start_ups_with_an_injected_database_error'] = sum(r['n'] for r in fres)
     if prop == 'C10':
         # "requests answered with an error change no generation", also when a database error made it fail
         import multiprocessing as mp
